@@ -25,11 +25,13 @@ type RFOp struct {
 }
 
 type RFRun struct {
-	Tasks    [][]RFOp   `json:"tasks"`
-	Shared   []RFOp     `json:"shared,omitempty"`
-	Schedule [][2]int64 `json:"schedule"` // [task, yields]: run task for that many yields
-	GC       []int64    `json:"gc_at_steps,omitempty"`
-	Note     string     `json:"note,omitempty"`
+	Tasks  [][]RFOp `json:"tasks"`
+	Shared []RFOp   `json:"shared,omitempty"`
+	// [task, yields]: run task for that many yields; [task, n, op]: run task until the n-th
+	// yield inside its operation number op
+	Schedule [][]int64 `json:"schedule"`
+	GC       []int64   `json:"gc_at_steps,omitempty"`
+	Note     string    `json:"note,omitempty"`
 }
 
 type ReplayFile struct {
@@ -101,10 +103,14 @@ func casesToRF(cases []runCase) ([]string, []RFRun) {
 		for _, k := range c.plan.Shared {
 			r.Shared = append(r.Shared, opToRF(OpPlan{Key: k, Shared: -1}, &inputs, inIdx))
 		}
-		r.Schedule = [][2]int64{}
+		r.Schedule = [][]int64{}
 		if c.sched != nil {
 			for _, s := range c.sched.Segs {
-				r.Schedule = append(r.Schedule, [2]int64{int64(s.Task), s.N})
+				if s.Op >= 0 {
+					r.Schedule = append(r.Schedule, []int64{int64(s.Task), s.N, int64(s.Op)})
+				} else {
+					r.Schedule = append(r.Schedule, []int64{int64(s.Task), s.N})
+				}
 			}
 			r.GC = c.sched.GC
 		}
@@ -175,7 +181,14 @@ func installReplayPool(rf *ReplayFile) ([]runCase, error) {
 		}
 		sc := &Schedule{GC: r.GC}
 		for _, s := range r.Schedule {
-			sc.Segs = append(sc.Segs, Segment{Task: int(s[0]), N: s[1]})
+			switch len(s) {
+			case 2:
+				sc.Segs = append(sc.Segs, Segment{Task: int(s[0]), N: s[1], Op: -1})
+			case 3:
+				sc.Segs = append(sc.Segs, Segment{Task: int(s[0]), N: s[1], Op: int(s[2])})
+			default:
+				return nil, fmt.Errorf("bad schedule entry %v", s)
+			}
 		}
 		cases = append(cases, runCase{plan: pl, sched: sc})
 	}
